@@ -225,6 +225,9 @@ def run(ctx):
     from .. import xmlshape_bind
 
     xmlshape_bind.run_matrix(ctx, "C10")   # spec/XmlShape.tla: field kinds x XML shapes x positions
+    from .. import dictshape_bind
+
+    dictshape_bind.run_matrix(ctx, "C10")  # spec/DictShape.tla: Unconvertible(kind, shape)
     cases = rt.generate(ctx, label="Gen_RoundTrip injections 1 field", max_fields=1, faults=FAULTS, cfgs="AllCfgs", limit=ctx.pick(3000, None))
     cases += rt.generate(ctx, label="Gen_RoundTrip injections 2 fields (simulate)", max_fields=2, faults=FAULTS, cfgs="AllCfgs",
                          simulate=ctx.pick(600, 20000))
